@@ -413,11 +413,19 @@ struct Extractor {
     if (!G) { F["cfg"] = nullptr; return F; }
 
     ElemOf.clear();
+    // Clang may list the same Stmt twice in one block (a call that is also the value of a
+    // conditional branch arm): keep the first occurrence only.
+    std::map<const CFGBlock *, std::vector<const Stmt *>> Filtered;
     for (const CFGBlock *B : *G) {
-      int i = 0;
+      auto &Vec = Filtered[B];
       for (const CFGElement &El : *B) {
-        if (auto CS = El.getAs<CFGStmt>()) ElemOf[CS->getStmt()] = {(int)B->getBlockID(), i};
-        i++;
+        if (auto CS = El.getAs<CFGStmt>()) {
+          const Stmt *S = CS->getStmt();
+          if (auto *Ex = dyn_cast<Expr>(S)) S = Ex->IgnoreParenImpCasts();
+          if (ElemOf.count(S)) continue;
+          ElemOf[S] = {(int)B->getBlockID(), (int)Vec.size()};
+          Vec.push_back(S);
+        }
       }
     }
     json::Array Blocks;
@@ -425,19 +433,14 @@ struct Extractor {
       json::Object JB;
       JB["id"] = (int64_t)B->getBlockID();
       json::Array Els;
-      for (const CFGElement &El : *B) {
-        if (auto CS = El.getAs<CFGStmt>()) {
-          const Stmt *S = CS->getStmt();
-          CurrentElem = S;
-          json::Value V = E(S);
-          CurrentElem = nullptr;
-          json::Object W;
-          W["e"] = std::move(V);
-          W["loc"] = loc(S);
-          Els.push_back(std::move(W));
-        } else {
-          Els.push_back(json::Object{{"e", nullptr}});
-        }
+      for (const Stmt *S : Filtered[B]) {
+        CurrentElem = S;
+        json::Value V = E(S);
+        CurrentElem = nullptr;
+        json::Object W;
+        W["e"] = std::move(V);
+        W["loc"] = loc(S);
+        Els.push_back(std::move(W));
       }
       JB["elems"] = std::move(Els);
       if (const Stmt *L = B->getLabel()) {
